@@ -61,6 +61,9 @@ typedef struct {
  * Buffer must be at least 13 bytes (1 tag + max 8 payload + 4 len). */
 uint32_t cop_serialize_value(const NanoValue *val, uint8_t *buf, uint32_t buf_size);
 
+/* Number of bytes cop_serialize_value() needs for this value. */
+uint64_t cop_serialized_size(const NanoValue *val);
+
 /* Deserialize a NanoValue from a buffer. Returns bytes consumed, 0 on error.
  * heap is needed for allocating strings. */
 uint32_t cop_deserialize_value(const uint8_t *buf, uint32_t buf_size,
